@@ -6,25 +6,33 @@ from pathlib import Path
 V = Path(__file__).resolve().parent.parent
 BASELINE = "cd /repo && /venv/bin/python -m pytest -ra -q -p no:cacheprovider --timeout=900 --continue-on-collection-errors"
 
-# id -> (level text, level note, technique, design ref)
-META = {
- "C01": ("Lean theorems over the `_constrain_ages` model (all edge lists, time vectors, iteration counts, any rounded addition): every output edge meets the minimum length; parents strictly older whenever the assigned value exceeds the child (true of the repaired max(x+eps, nextafter x)); tskit edge order is topological. Model tied to numba code bit-for-bit at Float on generated inputs; date() outputs checked against the statement across methods/options/time scales. Partial: tskit validity and mutation-time placement are by contract.",
-         "Lean kernel + {propext, Classical.choice, Quot.sound}; sampled bit-exact correspondence; tskit by contract; exact-arithmetic LS phase",
-         "invariant by induction over the edge list + bit-exact model/implementation correspondence", "§3 C01"),
- "C03": ("Lean theorems: a fixed (sample) node without child edges keeps its input time for every rounding and iteration count; the least-squares sweep never moves fixed nodes; with children it ends at max(input, child output + eps) (exact arithmetic, all iteration counts) / the bump fold (any rounding, iters=0). Tied bit-for-bit to numba; date() outputs with historical and ancestral samples checked.",
-         "as C01; that fit.node_moments returns ts times for samples is covered by the output oracle only",
-         "sweep invariant (cavities of fixed endpoints are zero) + max-characterisation + bit-exact correspondence", "§3 C03"),
- "C27": ("Lean theorems: forced pass = larger-of characterisation, never lowers, least admissible vector (monotone fadd); strictly valid times unchanged for every iteration count; idempotent for every iteration count and any rounding with x <= ftest x <= fadd x. Tied bit-for-bit to numba; the statement is also evaluated bitwise on the implementation.",
-         "as C01", "induction over edge list / fixpoint of the main loop + bit-exact correspondence", "§3 C27"),
-}
+import ast
+
+
+def read_meta(path):
+    """META = dict(level=..., note=..., technique=..., ref=...) literal in a check module."""
+    tree = ast.parse(path.read_text())
+    for node in tree.body:
+        if isinstance(node, ast.Assign) and any(isinstance(t, ast.Name) and t.id == "META" for t in node.targets):
+            v = node.value
+            if isinstance(v, ast.Call):   # dict(k=..., ...)
+                return {k.arg: ast.literal_eval(k.value) for k in v.keywords}
+            return ast.literal_eval(v)
+    return None
+
+
+NOT_CLAIMED = {}
+
 
 def main():
     props = [json.loads(l) for l in (V / "properties.jsonl").read_text().splitlines() if l.strip()]
     checks, na = [], []
     for p in props:
         pid = p["id"]
-        if (V / "harness" / "props" / f"{pid.lower()}.py").exists() and pid in META:
-            text, note, tech, ref = META[pid]
+        mod = V / "harness" / "props" / f"{pid.lower()}.py"
+        meta = read_meta(mod) if mod.exists() else None
+        if meta:
+            text, note, tech, ref = meta["level"], meta["note"], meta["technique"], meta["ref"]
             checks.append(dict(
                 property_id=pid,
                 quick_cmd=f"./check {pid} --tier quick",
@@ -37,7 +45,7 @@ def main():
                 technique=tech,
             ))
         else:
-            na.append(dict(property_id=pid, reason="check not built yet (work in progress; planned in DESIGN.md §3)"))
+            na.append(dict(property_id=pid, reason=NOT_CLAIMED.get(pid, "check not built yet (work in progress; planned in DESIGN.md §3)")))
     man = dict(
         version=1,
         setup_cmd="./setup.sh",
